@@ -743,6 +743,7 @@ class GroupBy:
         if (
             (n_values == 1)
             and isinstance(values, ArrayType1D)
+            and np.ndim(values) == 1
             or isinstance(values, list)
             and np.ndim(values[0]) == 0
         ):
